@@ -28,19 +28,22 @@ def tpl_size(old, d, op, new, d2, _twin=False):
     code = 0
     reached = False
     try:
-        pool = TaskPool(pool_size=old)
+        # old == -1: the pool is created with the default (unbounded) size
+        pool = TaskPool() if old == -1 else TaskPool(pool_size=old)
         it = Interp(w, pool, cbkind=0)
         try:
             it.apply(d)
             w.settle()
             k = w.live                       # running; d - k are waiting for room
-            if k != _min(old, d):
+            if k != (d if old == -1 else _min(old, d)):
                 code = 1507
             if not code and op == 0:
                 w.op("get")
                 if k >= 1 and "T5" in w.open:
                     raise Excluded("T5")
-                if pool.pool_size != old:
+                if old != -1 and pool.pool_size != old:
+                    code = 1501
+                if old == -1 and pool.pool_size != float("inf"):
                     code = 1501
             elif not code:
                 w.op("set", new)
@@ -105,6 +108,6 @@ def families(tier):
     thorough = tier == "thorough"
     P = ["old", "d", "op", "new", "d2"]
     dm = 4 if thorough else 3
-    pre = ["old >= 0", "0 <= d <= %d" % dm, "0 <= op <= 1", "0 <= d2 <= 3", "op == 1 or (new == 0 and d2 == 0)"]
+    pre = ["old >= -1", "0 <= d <= %d" % dm, "0 <= op <= 1", "0 <= d2 <= 3", "op == 1 or (new == 0 and d2 == 0)"]
     return [Family(name="size", fn="tpl_size", params=P, pre=pre, parts=parts_product(d=range(dm + 1), op=(0, 1)),
                    twin_pre=["d == 0", "op == 1"], twin_args=[1, 0, 1, 3, 2])]
